@@ -277,6 +277,13 @@ fn check_sealed(run: &Run, ctx: &Ctx, n: &Node) {
             run.violation("C07", format!("root-is-not-a-function-of-content/{}", name), format!("{} root in the header differs from the root of a fresh tree holding the model's content, on [{}]", name, n.path_str()), rp.clone());
         }
     }
+    // the scalar fields of the header are the state's own values ("any difference in ... fee pool, fee multiplier or DOSC speed
+    // changes the header": a header that reports something else - a capped fee pool, say - lets two contents share a header)
+    for (name, got, want) in [("fee_pool", h.fee_pool.0, m.fee_pool), ("fee_multiplier", h.fee_multiplier, m.fee_multiplier), ("dosc_speed", h.dosc_speed, m.dosc_speed)] {
+        if got != want {
+            run.violation("C07", format!("header-scalar-differs-from-content/{}", name), format!("the header reports {} = {} while the state holds {} on [{}]", name, got, want, n.path_str()), rp.clone());
+        }
+    }
     if m.block_txs.values().any(|t| !t.sigs.is_empty() && t.sigs.iter().all(|s| s.is_empty())) {
         run.outcome(if m.rules().tip_908 { "sealed-block-with-empty-signature-slots/dense" } else { "sealed-block-with-empty-signature-slots/sparse" });
     }
@@ -582,7 +589,27 @@ pub fn run(run: &Run) {
     emptied.cfg.only_pools = None;
     scs.push(emptied);
     for sc in &scs {
-        let (_w, mut rootn) = root_variant(sc.net, sc.fee_mult, true, sc.genesis);
+        let (w0, mut rootn) = root_variant(sc.net, sc.fee_mult, true, sc.genesis);
+        // the first header of a chain reports the fee pool and the fee multiplier its genesis configuration gives (the model of a
+        // root is read off the real state, so this one comparison is made against the configuration itself)
+        {
+            let want_pool = match sc.genesis {
+                1 => Some(1u128 << 40),
+                2 => Some(12_345),
+                3 => Some(1 << 100),
+                4 => Some((1 << 121) + (1 << 40) + 12_345),
+                _ => None,
+            };
+            // (the configuration realised, before anything is sealed: sealing block 0 already adds the TIP-909 subsidy to the fee pool)
+            let g = w0.genesis.verif_peek().header();
+            if let Some(want) = want_pool {
+                run.transition();
+                run.validated();
+                if g.fee_pool.0 != want || g.fee_multiplier != sc.fee_mult {
+                    run.violation("C07", "header-scalar-differs-from-content/genesis".into(), format!("scenario {}: the header of the realised genesis configuration reports fee pool {} and multiplier {}, the configuration gives {} and {}", sc.name, g.fee_pool.0, g.fee_multiplier, want, sc.fee_mult), json!({"scenario": sc.name, "genesis_variant": sc.genesis}));
+                }
+            }
+        }
         if !sc.setup_labels.is_empty() {
             let mut setup_cfg = sc.cfg.clone();
             setup_cfg.mints = true;
